@@ -144,7 +144,7 @@ theorem step_inv (E : Env) (s0 s : Sys) (i : Nat) (h : Inv E s0 s) : Inv E s0 (s
         · exact h'
         · rw [List.getElem?_eq_none h'] at hi; cases hi
       rw [← h.fut i, hi]
-      simp [List.getElem?_set_self, h1, sp.1]
+      simp [h1, sp.1]
     · simp only [List.getElem?_set_ne hij]
       exact h.fut j
 
